@@ -1,5 +1,7 @@
 (* Replays the ops of an implementation trace on the extracted model and prints
-   the same observation groups in the same syntax. Reads the trace on stdin,
+   the same observation groups in the same syntax. `O n setparams <max_timeout> <multiple> <min_deposit>
+   <tax 1e18> <slash 1e18> <arb ns> <compl ns>` is a governance parameter change; the `params` query and
+   the genesis export answer from the parameters in force. Reads the trace on stdin,
    writes the model trace on stdout. Only H/P/A/F/Q/O/E lines are read. *)
 module BZ = Z
 open Model
@@ -357,10 +359,22 @@ let () =
             start ();
             let step_no = int_of_string (next t) in
             let kind = (match t.l with k :: _ -> k | [] -> "") in
-            (match parse_op t, !cfg, !st with
+            (* every op runs through the extracted parameter machine `pstep` (Model/ParamStep.v):
+               PO o = `step` under the parameters in force; PSet c = governance parameter change *)
+            let pop = (match kind with
+              | "setparams" ->
+                  ignore (next t);
+                  let mt = nz t in let mu = nz t in let md = nz t in let tax = nz t in let sl = nz t in
+                  let arb = nz t in let co = nz t in
+                  (* the two harness constants are kept by pstep (keep_consts); the values given here are ignored *)
+                  Some (PSet { p_max_timeout = mt; p_multiple = mu; p_min_deposit = md; p_tax = tax; p_slash = sl;
+                               p_arb = arb; p_compl = co; p_modsvc = Z0; p_cbmod = Z0 })
+              | _ -> (match parse_op t with Some o -> Some (PO o) | None -> None)) in
+            (match pop, !cfg, !st with
              | Some o, Some c, Some s ->
                  let oldlog = List.length s.log in
-                 let (s', out) = step c s o in
+                 let ((c', s'), out) = pstep (c, s) o in
+                 cfg := Some c';
                  st := Some s';
                  Printf.printf "R %d %s\n" step_no (match out with ROk -> "ok" | RErr -> "err" | RPanic -> "panic");
                  observe step_no oldlog
